@@ -35,11 +35,184 @@ def conjuncts(e):
     return [e]
 
 
+
+def context_free_types(P, res):
+    """CONTEXT-FREE-TYPE: the hidden identity fields that `==` compares (runtime_type) are computed from the literal alone.
+    In every function that reads the current frame's `type_bindings` and builds a Value_ / Type, nothing derived from
+    those bindings flows into the built value: the same literal evaluated in a generic function and at the top level must
+    be the same value."""
+    from .. import mir as M2
+    n = 0
+    for p_, f in sorted(P.funcs.items()):
+        if p_.endswith(("::clone", "::fmt")) or not p_.startswith("eval::"):
+            continue
+        tainted = set()
+
+        def place_reads_tb(pl):
+            return any(isinstance(e, dict) and e.get("name") == "type_bindings" and e.get("adt") == "env::StackFrame" for e in pl["p"])
+
+        def op_tainted(op):
+            q = M2.op_place(op)
+            return q is not None and (q["l"] in tainted or place_reads_tb(q))
+        sinks = []
+        for b in f.blocks:
+            for st in b["stmts"]:
+                if st.get("s") == "assign" and st["rv"]["k"] == "agg" and st["rv"].get("adt") in ("values::Value_", "garden_type::Type"):
+                    sinks.append(st)
+        reads = any(place_reads_tb(q) for b in f.blocks for st in b["stmts"] if st.get("s") == "assign"
+                    for q in [st["rv"].get("place") or M2.op_place(st["rv"].get("a", {})) or {"p": []}]) or \
+            any(place_reads_tb(M2.op_place(a) or {"p": []}) for b in f.blocks if b["term"]["t"] == "call" for a in b["term"]["args"])
+        if not reads or not sinks:
+            continue
+        n += 1
+        ch = True
+        rounds = 0
+        while ch and rounds < 50:
+            ch = False
+            rounds += 1
+            for b in f.blocks:
+                for st in b["stmts"]:
+                    if st.get("s") != "assign":
+                        continue
+                    rv = st["rv"]
+                    src_t = False
+                    if rv["k"] in ("use", "cast", "unop") and "a" in rv:
+                        src_t = op_tainted(rv["a"])
+                    elif rv["k"] in ("ref", "rawptr", "discr"):
+                        src_t = rv["place"]["l"] in tainted or place_reads_tb(rv["place"])
+                    elif rv["k"] == "agg":
+                        src_t = any(op_tainted(o) for o in rv.get("ops", []))
+                    elif rv["k"] == "binop":
+                        src_t = op_tainted(rv["a"]) or op_tainted(rv["b"])
+                    if src_t and st["place"]["l"] not in tainted:
+                        tainted.add(st["place"]["l"])
+                        ch = True
+                t = b["term"]
+                if t["t"] == "call" and any(op_tainted(a) for a in t["args"]):
+                    # the result, and a collection receiver that takes the tainted value (`v.push(x)`, `m.insert(k, x)`)
+                    tg = []
+                    if t.get("dest") is not None:
+                        tg.append(t["dest"]["l"])
+                    n_ = M2.callee_name(t) or ""
+                    if n_.endswith(("::push", "::insert", "::extend", "::push_back_mut", "::insert_mut")) and t["args"]:
+                        q0 = M2.op_place(t["args"][0])
+                        d0 = f.single_def(q0["l"]) if q0 is not None and not q0["p"] else None
+                        if d0 is not None and d0[1] != "term" and d0[2]["rv"]["k"] == "ref":
+                            tg.append(d0[2]["rv"]["place"]["l"])
+                        else:
+                            r0 = f.root_of(t["args"][0])
+                            if r0[0] == "place":
+                                tg.append(r0[1]["l"])
+                    # checks and diagnostics do not produce parts of the value
+                    if n_.endswith(("check_type", "from_hint")) or "fmt" in n_:
+                        tg = [x for x in tg if n_.endswith("from_hint")]
+                    for x in tg:
+                        if x not in tainted:
+                            tainted.add(x)
+                            ch = True
+        # the expected field type (from_hint) is only for checking: its taint must not reach the value either, so it stays
+        bad = [st for st in sinks if any(op_tainted(o) for o in st["rv"].get("ops", []))]
+        key = "%s # literal type vs frame bindings" % p_
+        if bad:
+            res.bad("CONTEXT-FREE-TYPE", key + " # flows",
+                    "%s builds a %s whose parts derive from the current frame's type_bindings: the hidden runtime type of a literal then depends on "
+                    "where it is evaluated (inside a generic function or not), so two values that print the same compare unequal" % (
+                        p_, bad[0]["rv"]["adt"].split("::")[-1]), f.loc(bad[0]["span"]))
+        else:
+            res.ok("CONTEXT-FREE-TYPE", key + ": frame type bindings are used for checking only")
+    res.floor("CONTEXT-FREE-TYPE", "value-building functions that read the frame's type bindings", n, 1)
+
+
+def dict_type_order_free(P, res):
+    """DICT-TYPE-ORDER-FREE: a dict prints and compares without regard to the order its entries were added, but its hidden
+    `value_type` is part of the runtime type of an enclosing enum / struct value, which `==` compares. So wherever a
+    Value_::Dict is built, its value_type is either carried over from another dict, a fixed type, or obtained from a join
+    (a function of two types that asks is_subtype in both directions) -- never the type of one particular element."""
+    from .. import mir as M2
+
+    def is_join(path):
+        g = P.funcs.get(path)
+        if g is None or "Type" not in g.local_ty(0):
+            return False
+        subs = [t for _, t in g.calls() if (M2.callee_name(t) or "").endswith("garden_type::is_subtype")]
+        if len(subs) < 2:
+            return False
+        firsts = set()
+        for t in subs:
+            r0 = g.root_of(t["args"][0], through_named=True)
+            r1 = g.root_of(t["args"][1], through_named=True)
+            if r0[0] == "place" and r1[0] == "place":
+                firsts.add((r0[1]["l"], r1[1]["l"]))
+        return any((b_, a_) in firsts for (a_, b_) in firsts)
+
+    def roots(f, op, seen, depth=0):
+        q = M2.op_place(op)
+        if q is None:
+            return {("const", "")}
+        r = f.root_of(op, through_named=True)
+        if r[0] == "call":
+            n = M2.callee_name(r[2]) or "?"
+            if n.endswith("::clone") and r[2]["args"]:
+                return roots(f, r[2]["args"][0], seen, depth + 1)
+            return {("call", n)}
+        if r[0] == "place":
+            if r[1]["p"]:
+                return {("field", ".".join(f.field_path(r[1])))}
+            l = r[1]["l"]
+            if l in seen or depth > 6:
+                return set()
+            seen.add(l)
+            out = set()
+            for (b_, si, st) in f.defs.get(l, []):
+                if si == "term":
+                    out.add(("call", M2.callee_name(st) or "?"))
+                elif st.get("s") == "assign":
+                    rv = st["rv"]
+                    if rv["k"] == "use":
+                        out |= roots(f, rv["a"], seen, depth + 1)
+                    elif rv["k"] == "ref":
+                        out.add(("field", ".".join(f.field_path(rv["place"])) or "local"))
+                    else:
+                        out.add((rv["k"], ""))
+            return out
+        return {(r[0], "")}
+    n = 0
+    for p_, f in sorted(P.funcs.items()):
+        if p_.endswith("::clone"):
+            continue
+        k_ = 0
+        for bi, b in enumerate(f.blocks):
+            for st in b["stmts"]:
+                if st.get("s") == "assign" and st["rv"]["k"] == "agg" and st["rv"].get("adt") == "values::Value_" and st["rv"].get("variant") == "Dict":
+                    rv = st["rv"]
+                    n += 1
+                    k_ += 1
+                    op = rv["ops"][rv["fields"].index("value_type")]
+                    rs = roots(f, op, set())
+                    bad = sorted(n_ for kind, n_ in rs if kind == "call" and n_.endswith("Type::from_value"))
+                    unknown = sorted(n_ for kind, n_ in rs if kind == "call" and not n_.endswith("Type::from_value") and not is_join(n_)
+                                     and not (n_.startswith("garden_type::Type::") and P.funcs.get(n_) is not None and P.funcs[n_].argc == 0))
+                    key = "%s # Value_::Dict %d" % (p_, k_)
+                    if bad:
+                        res.bad("DICT-TYPE-ORDER-FREE", key + " # element type",
+                                "a dict built in %s takes its value_type from one particular element (Type::from_value): dicts with the same entries added in a "
+                                "different order get different hidden types and, inside an enum or struct value, compare unequal although they print the same" % p_,
+                                f.loc(st["span"]))
+                    elif unknown:
+                        res.bad("DICT-TYPE-ORDER-FREE", key + " # unrecognised source %s" % unknown[0].split("::")[-1],
+                                "the value_type of a dict built in %s comes from %s, which is neither another dict's type, a fixed type nor a join of two types" % (p_, unknown), f.loc(st["span"]))
+                    else:
+                        res.ok("DICT-TYPE-ORDER-FREE", key + ": value_type from %s" % sorted({(n_.split("::")[-1] if kind == "call" else kind + ":" + n_) for kind, n_ in rs}))
+    res.floor("DICT-TYPE-ORDER-FREE", "Value_::Dict constructions", n, 3)
+
+
 def run(ctx, res):
     sh = ctx.shape
     enum = S.find_enum(sh, FILE, "Value_")
     variants = {v["name"]: [f["name"] or str(i) for i, f in enumerate(v["fields"])] for v in enum["variants"]}
     res.floor("DIAGONAL-COVER", "variants of Value_", len(variants), 10)
+    context_free_types(ctx.P, res)
+    dict_type_order_free(ctx.P, res)
     fn = S.find_fn(sh, FILE, "eq", impl_self="Value_", impl_trait="PartialEq")
     ms = S.matches_in(fn["body"])
     if not ms or ms[0]["e"]["k"] != "Tuple":
